@@ -95,7 +95,7 @@ def run(rep):
             text, lex = compose(c["seq"], c["comment"], rng, gap)
             lines.append((text, lex, "en" if len(lines) % 3 else "tr"))
     classes = list(STRINGS) + ["lp_rp", "assign"]
-    for i in range(1500 if quick else 20000):
+    for i in range(1500 if quick else 150000):
         seq = [rng.choice(classes) for _ in range(rng.randint(4, 10))]
         text, lex = compose(seq, rng.random() < 0.4, rng, rng.choice([" ", " ", "   ", "glue", "glue"]))
         if len(text) <= 250:
